@@ -112,12 +112,12 @@ func runConc(c Case) concOut {
 			out.skipped = true
 			return out
 		}
-		writer := ""
+		writer, stored := "", kstate{}
 		if e := m.keys[op.Key]; e != nil {
-			writer = e.writer
+			writer, stored = e.writer, e.st
 		}
 		if same, symptom := sameExact(op, got, concWant(op, want)); !same {
-			out.key = classify(op, class, writer, symptom, got, want)
+			out.key = classify(op, class, writer, symptom, got, want, stored)
 			out.detail = fmt.Sprintf("set-up step %d %s on %s key: memory answered %s, model %s; set-up: %s", i, op, class, got, want, histString(c.Pre[:i+1]))
 			return out
 		}
@@ -356,14 +356,17 @@ func TestConcurrentLinearizable(t *testing.T) {
 			c.Progs = append(c.Progs, prog)
 		}
 		var last concOut
+		overlap := false
 		for r := 0; r < rounds; r++ {
 			last = runConc(c)
-			if last.key != "" {
+			if last.key != "" || last.skipped {
 				break
 			}
-			if last.overlap {
-				vkit.Class("conc-family:" + fam)
-			}
+			overlap = overlap || last.overlap
+		}
+		last.overlap = overlap
+		if overlap && last.key == "" {
+			vkit.Class("conc-overlap-family:" + fam)
 		}
 		finishConc(t, c, last)
 	})
